@@ -319,6 +319,18 @@ def judgeLine (c : Ctx) (root : Tree) (rootId : Nat) (r : Res) (line : String) :
         let expNode := c.byId.get? (parseHexNat exp)
         let zeroWidth := match expNode with | some j => c.ft.sb j == c.ft.eb j | none => false
         let explained := navPort == some answer
+        -- for the range searches: does the search path on the ordered tree pass a zero-width node?
+        -- (point queries are mapped to bytes through the node boundaries they were built from)
+        let rangePathHasEmpty :=
+          match op, args with
+          | "dbr", w :: s0 :: e0 :: _ | "ndbr", w :: s0 :: e0 :: _ =>
+            c.ft.descendantPathHasEmpty (if w == "r" then 0 else k) (natOf s0) (natOf e0)
+          | "dpr", w :: _ | "ndpr", w :: _ =>
+            -- the explorer builds point ranges from the node's own corners
+            c.ft.descendantPathHasEmpty (if w == "r" then 0 else k) (c.ft.sb k) (c.ft.sb k) ||
+            c.ft.descendantPathHasEmpty (if w == "r" then 0 else k) (c.ft.eb k) (c.ft.eb k) ||
+            c.ft.descendantPathHasEmpty (if w == "r" then 0 else k) (c.ft.sb k) (c.ft.eb k)
+          | _, _ => false
         let info := (c.ft.node k).info
         let label :=
           if op == "sx" then
@@ -327,7 +339,8 @@ def judgeLine (c : Ctx) (root : Tree) (rootId : Nat) (r : Res) (line : String) :
           else if !explained && navPort.isSome then op ++ ":unexplained"
           else if op == "cbf" && answer == "-" && info.raw.data.symbol == symError then "cbf:error-parent-has-no-field-map"
           else if (op == "ns" || op == "nns") && zeroWidth then op ++ ":zero-width-sibling-skipped"
-          else if (op == "dbr" || op == "ndbr" || op == "dpr" || op == "ndpr") && zeroWidth then op ++ ":zero-width"
+          else if (op == "dbr" || op == "ndbr" || op == "dpr" || op == "ndpr") &&
+              (zeroWidth || rangePathHasEmpty) then op ++ ":zero-width"
           else if (op == "fcb" || op == "fncb") &&
               (answer == "-" || (match c.byId.get? (parseHexNat answer), expNode with
                                  | some a, some e => a > e
